@@ -122,9 +122,11 @@ func runC14(c *Ctx) {
 	c14NoDefaultingPrinter(c)
 	c14Delimiters(c)
 	c14HostGrammar(c)
+	c14QuotedNames(c)
 	c14AccessorKeys(c)
 	c14OrderedLists(c)
 	rulePureCapture(c, "pure-capture")
+	c14DecoderPurity(c)
 	c01PayloadImmutability(c)
 	ruleTokenSplitting(c, "decoder-errors", "parseViaParam", "ParseCSeq", "parseRequestLine", "parseStatusLine")
 	ruleSplitRemainder(c, "decoder-errors")
@@ -198,6 +200,119 @@ func decoderSet(w *World) map[*ssa.Function]bool {
 		roots = append(roots, fn)
 	}
 	return w.reachableFrom(roots, false)
+}
+
+// c14DecoderPurity: what a decoder returns denotes its text and nothing else: a decoder (and what it calls inside the
+// package) neither reads nor writes package-level variables - no cache of earlier results, no table that other
+// messages have written to. (Objects handed out of a shared cache are shared with whoever edits them: a stamp written
+// into one message's Via shows up in the next message with the same text.)
+func c14DecoderPurity(c *Ctx) {
+	w := c.w
+	rule := "pure-capture"
+	set := decoderSet(w)
+	n := 0
+	var fns []*ssa.Function
+	for fn := range set {
+		if w.isMain(fn) {
+			fns = append(fns, fn)
+		}
+	}
+	sort.Slice(fns, func(i, j int) bool { return w.fname(fns[i]) < w.fname(fns[j]) })
+	for _, fn := range fns {
+		n++
+		bad := ""
+		where := ""
+		eachInstr(fn, func(in ssa.Instruction) {
+			var rands []*ssa.Value
+			for _, r := range in.Operands(rands) {
+				g, ok := (*r).(*ssa.Global)
+				if !ok || g.Pkg != w.Main {
+					continue
+				}
+				if strings.HasPrefix(g.Name(), "init$") {
+					continue
+				}
+				// an error variable of the package that is only ever assigned newly built errors is a constant
+				if w.sentinelError(g) || w.readOnlyGlobal(g) {
+					continue
+				}
+				bad, where = g.Name(), w.ipos(in)
+			}
+		})
+		c.check(bad == "", rule, "decoder-state/"+w.fname(fn), w.pos(fn.Pos()), "uses no package-level state", "decoder "+w.fname(fn)+" uses the package-level variable "+bad+" (at "+where+"): its result is no longer a function of the text alone - a cache of decoded values hands the same objects (or objects sharing storage) to several messages, and an edit made for one message shows in the next one that carries the same text")
+	}
+	c.check(n >= 10, rule, "decoder-state/floor", "-", "decoders found", fmt.Sprintf("only %d decoder functions found", n))
+}
+
+// readOnlyGlobal: package-level variable g is a table: assigned only by the package initialiser, and what is loaded from
+// it is only looked up, ranged over or measured - never updated, stored through or handed to a call.
+func (w *World) readOnlyGlobal(g *ssa.Global) bool {
+	ok := true
+	var readOnlyUse func(v ssa.Value, d int) bool
+	readOnlyUse = func(v ssa.Value, d int) bool {
+		if v.Referrers() == nil || d > 3 {
+			return d <= 3
+		}
+		for _, r := range *v.Referrers() {
+			switch x := r.(type) {
+			case *ssa.DebugRef, *ssa.Lookup, *ssa.Range, *ssa.Index:
+			case *ssa.IndexAddr:
+				if !readOnlyUse(x, d+1) {
+					return false
+				}
+			case *ssa.FieldAddr:
+				if !readOnlyUse(x, d+1) {
+					return false
+				}
+			case *ssa.UnOp:
+				if x.Op != token.MUL {
+					return false
+				}
+				if _, isPtr := x.Type().Underlying().(*types.Pointer); isPtr {
+					return false
+				}
+			case *ssa.Call:
+				b, isB := x.Call.Value.(*ssa.Builtin)
+				if !isB || (b.Name() != "len" && b.Name() != "cap") {
+					return false
+				}
+			default:
+				return false
+			}
+		}
+		return true
+	}
+	for _, fn := range w.All {
+		isInit := fn.Name() == "init" || strings.HasPrefix(fn.Name(), "init#")
+		eachInstr(fn, func(in ssa.Instruction) {
+			var rands []*ssa.Value
+			uses := false
+			for _, r := range in.Operands(rands) {
+				if *r == ssa.Value(g) {
+					uses = true
+				}
+			}
+			if !uses {
+				return
+			}
+			switch x := in.(type) {
+			case *ssa.Store:
+				if x.Addr != ssa.Value(g) || !isInit {
+					ok = false
+				}
+			case *ssa.UnOp:
+				if x.Op != token.MUL || (!isInit && !readOnlyUse(x, 0)) {
+					ok = false
+				}
+			case *ssa.DebugRef:
+			default:
+				if !isInit {
+					ok = false
+				}
+			}
+		})
+	}
+	return ok
 }
 
 func liveReferrers(v ssa.Value) int {
@@ -656,9 +771,14 @@ func strippedSeparators(w *World, fn *ssa.Function) []strippedSep {
 					out = append(out, strippedSep{s[i], "strings.Split separator", call, false})
 				}
 			}
+		case "splitUnquoted":
+			// the package's own Split that leaves quoted-strings alone (fix D23): the separator byte is in no part
+			if b, isB := constByte(call.Call.Args[1]); isB {
+				out = append(out, strippedSep{b, "splitUnquoted separator", call, false})
+			}
 		case "strings.Fields":
 			out = append(out, strippedSep{' ', "strings.Fields (blank separated)", call, false})
-		case "strings.IndexByte", "strings.Index", "strings.LastIndex", "strings.LastIndexByte":
+		case "strings.IndexByte", "strings.Index", "strings.LastIndex", "strings.LastIndexByte", "indexUnquoted":
 			b, isB := constByte(call.Call.Args[1])
 			if !isB {
 				continue
@@ -839,11 +959,212 @@ func c14Delimiters(c *Ctx) {
 		c.undecided(rule, "floor", "-", fmt.Sprintf("only %d stripped separators recognised (expected >= 25): decoder idioms are not understood", n))
 	}
 	c14RequiredSeparators(c)
+	c14KeptSeparators(c)
+}
+
+// c14KeptSeparators: a decoder that finds a separator at pos and hands text[..pos+1] - the separator included - to a
+// sub-decoder while it goes on behind the separator itself, leaves that byte to the sub-decoder: the sub-decoder must
+// be one that strips this very byte (ParseNameAddr is given "...>" and cuts at '>'). Otherwise the byte becomes part of
+// the component (an addr-spec "tel:+1234;") and the printer, which writes the separator between the components, emits
+// it a second time ("tel:+1234;;tag=abc").
+func c14KeptSeparators(c *Ctx) {
+	w := c.w
+	rule := "delimiter-agreement"
+	levels := decoderLevels(w)
+	var fns []*ssa.Function
+	for fn := range levels {
+		fns = append(fns, fn)
+	}
+	sort.Slice(fns, func(i, j int) bool { return w.fname(fns[i]) < w.fname(fns[j]) })
+	n := 0
+	for _, fn := range fns {
+		var slices []*ssa.Slice
+		eachInstr(fn, func(in ssa.Instruction) {
+			if sl, ok := in.(*ssa.Slice); ok && isStringType(sl.X.Type()) {
+				slices = append(slices, sl)
+			}
+		})
+		per := 0
+		for _, cs := range w.callsIn(fn) {
+			call, ok := cs.In.(*ssa.Call)
+			if !ok || !indexFamily[cs.Name] || len(call.Call.Args) < 2 {
+				continue
+			}
+			b, isB := constByte(call.Call.Args[1])
+			if !isB {
+				continue
+			}
+			str := strip(call.Call.Args[0])
+			goesOn := false
+			for _, sl := range slices {
+				if sameStringFamily(sl.X, str) && sl.Low != nil && isPlusOne(sl.Low, call) {
+					goesOn = true
+				}
+			}
+			if !goesOn {
+				continue
+			}
+			for _, sl := range slices {
+				if !sameStringFamily(sl.X, str) || sl.High == nil || !isPlusOne(sl.High, call) || sl.Referrers() == nil {
+					continue
+				}
+				// the piece that keeps the separator: who gets it?
+				for _, r := range *sl.Referrers() {
+					sub, isCall := r.(*ssa.Call)
+					if !isCall {
+						continue
+					}
+					callee := sub.Call.StaticCallee()
+					if callee == nil || !w.isMain(callee) {
+						continue
+					}
+					n++
+					per++
+					strips := false
+					for _, sp := range strippedSeparators(w, callee) {
+						if sp.b == b {
+							strips = true
+						}
+					}
+					c.check(strips, rule, fmt.Sprintf("kept-separator/%s/%q->%s#%d", w.fname(fn), string(b), w.fname(callee), per), w.ipos(sl), "the sub-decoder strips the separator it is given", fmt.Sprintf("%s hands %s the text up to and including the %q it found, and goes on behind it, but %s does not cut at %q: the separator becomes part of the decoded component and is written a second time by the printer (From: tel:+1234;tag=abc is re-encoded as tel:+1234;;tag=abc)", w.fname(fn), w.fname(callee), string(b), w.fname(callee), string(b)))
+				}
+			}
+		}
+	}
+	c.check(n >= 1, rule, "kept-separator/floor", "-", "inclusive hand-overs found", "no hand-over of a text including its separator was recognised (expected the name-addr hand-overs)")
 }
 
 // c14HostGrammar: a host may be an IPv6 reference "[...]" that itself contains ':' (RFC 3261 hostport). A decoder
 // that separates host and port at a ':' must therefore look at the brackets first; one that does not cannot decode
 // sip:alice@[2001:db8::1]:5060 or "SIP/2.0/UDP [2001:db8::1]:5060" at all.
+// c14QuotedNames: a name-addr may begin with a display name that is a quoted-string, and a quoted-string may hold the
+// very characters the header syntax is cut at ("Bob <work>" <sip:bob@example.com>, "Smith, John" <sip:..>). In the
+// decoders of the types that carry a name-addr every search for '<' or '>' and every split of a list at ',' therefore
+// goes through a function that looks at '"' (one that compares bytes of its text with the quote character); the
+// library's plain first-occurrence search does not. (Repaired as D23; the rule reports the defect if it returns.)
+func c14QuotedNames(c *Ctx) {
+	w := c.w
+	rule := "decoder-grammar"
+	nameAddrLevels := map[string]bool{"FromSpec": true, "To": true, "NameAddr": true, "Route": true, "RouteParam": true, "RecordRoute": true, "RecRoute": true}
+	quoteAware := map[*ssa.Function]bool{}
+	var looksAtQuotes func(fn *ssa.Function, d int) bool
+	looksAtQuotes = func(fn *ssa.Function, d int) bool {
+		if fn == nil || fn.Blocks == nil || d > 3 {
+			return false
+		}
+		if r, ok := quoteAware[fn]; ok {
+			return r
+		}
+		quoteAware[fn] = false
+		res := false
+		eachInstr(fn, func(in ssa.Instruction) {
+			if bo, ok := in.(*ssa.BinOp); ok && (bo.Op == token.EQL || bo.Op == token.NEQ) {
+				for _, o := range []ssa.Value{bo.X, bo.Y} {
+					if k, isK := constInt(o); isK && k == 34 {
+						if b, isB := o.Type().Underlying().(*types.Basic); isB && b.Info()&types.IsInteger != 0 {
+							res = true
+						}
+					}
+				}
+			}
+			if call, ok := in.(*ssa.Call); ok {
+				if callee := call.Call.StaticCallee(); callee != nil && w.isMain(callee) && looksAtQuotes(callee, d+1) {
+					res = true
+				}
+			}
+		})
+		quoteAware[fn] = res
+		return res
+	}
+	var fns []*ssa.Function
+	for fn, lvl := range decoderLevels(w) {
+		if nameAddrLevels[lvl] {
+			fns = append(fns, fn)
+		}
+	}
+	sort.Slice(fns, func(i, j int) bool { return w.fname(fns[i]) < w.fname(fns[j]) })
+	n := 0
+	for _, fn := range fns {
+		per := map[byte]int{}
+		for _, cs := range w.callsIn(fn) {
+			call, ok := cs.In.(*ssa.Call)
+			if !ok || len(call.Call.Args) < 2 {
+				continue
+			}
+			isSearch := indexFamily[cs.Name] || cs.Name == "strings.Split" || cs.Name == "strings.SplitN" || cs.Name == "strings.Cut" || cs.Name == "splitUnquoted"
+			callee := call.Call.StaticCallee()
+			if !isSearch && !(callee != nil && w.isMain(callee) && looksAtQuotes(callee, 0)) {
+				continue
+			}
+			b, isB := constByte(call.Call.Args[1])
+			if !isB || (b != '<' && b != '>' && b != ',') {
+				continue
+			}
+			n++
+			per[b]++
+			aware := callee != nil && w.isMain(callee) && looksAtQuotes(callee, 0)
+			c.check(aware, rule, fmt.Sprintf("%s/quoted-display-name/%q#%d", w.fname(fn), string(b), per[b]), w.ipos(call), "searches with a function that leaves quoted-strings alone", fmt.Sprintf("%s looks for %q with %s, which also finds it inside a quoted display name: From: \"Bob <work>\" <sip:bob@example.com>;tag=x is decoded with the address \"work\" and written back as \"Bob <work>;tag=x (the URI is lost), a Route list with \"Smith, John\" <sip:..> cannot be decoded at all", w.fname(fn), string(b), cs.Name))
+		}
+	}
+	c.check(n >= 8, rule, "quoted-display-name/floor", "-", "searches in name-addr decoders found", fmt.Sprintf("only %d searches for '<', '>' or ',' found in the decoders that carry a name-addr (expected >= 8)", n))
+	// inside a quoted-string a backslash quotes the next character (quoted-pair). A scanner with a single loop that
+	// decides whether a '"' is escaped by looking at the one byte before it is wrong: in "Ann \\" the closing quote
+	// follows an escaped backslash. (Looking at the current byte and skipping the next one is the form the finder has.)
+	var scanners []*ssa.Function
+	for fn, aware := range quoteAware {
+		if aware && fn.Blocks != nil {
+			scanners = append(scanners, fn)
+		}
+	}
+	sort.Slice(scanners, func(i, j int) bool { return w.fname(scanners[i]) < w.fname(scanners[j]) })
+	for _, fn := range scanners {
+		nLoops := 0
+		for _, b := range fn.Blocks {
+			for _, sc := range b.Succs {
+				if sc.Dominates(b) {
+					nLoops++
+				}
+			}
+		}
+		lookBehind := ""
+		nEsc := 0
+		eachInstr(fn, func(in ssa.Instruction) {
+			bo, ok := in.(*ssa.BinOp)
+			if !ok || (bo.Op != token.EQL && bo.Op != token.NEQ) {
+				return
+			}
+			var other ssa.Value
+			if k, isK := constInt(bo.Y); isK && k == 92 {
+				other = bo.X
+			} else if k, isK := constInt(bo.X); isK && k == 92 {
+				other = bo.Y
+			}
+			if other == nil {
+				return
+			}
+			var idx ssa.Value
+			switch e := strip(other).(type) {
+			case *ssa.Index:
+				idx = e.Index
+			case *ssa.Lookup:
+				idx = e.Index
+			default:
+				return
+			}
+			nEsc++
+			if sub, isB := strip(idx).(*ssa.BinOp); isB && sub.Op == token.SUB {
+				if k, isK := constInt(sub.Y); isK && k == 1 {
+					lookBehind = w.ipos(in)
+				}
+			}
+		})
+		if nEsc == 0 {
+			continue // a helper that only calls the scanner
+		}
+		c.check(!(lookBehind != "" && nLoops <= 1), rule, w.fname(fn)+"/quoted-pair", w.pos(fn.Pos()), "a backslash is judged where it stands", w.fname(fn)+" decides whether a quote is escaped from the single byte before it (at "+lookBehind+"): a display name that ends in an escaped backslash, \"Ann \\\\\" <sip:ann@example.com>, never closes for it - the '<' is not found and the header is decoded as a bare addr-spec or not at all")
+	}
+}
+
 func c14HostGrammar(c *Ctx) {
 	w := c.w
 	rule := "decoder-grammar"
